@@ -6,7 +6,11 @@ proof   : lean/GeosModel/Props/C11.lean — about the reader MODELS (WKB/HEX: Mo
           (`alloc_linear`: at most 4 bytes per input byte, every input, no depth hypothesis; child vectors grow by the children
           actually read since /repo a208e3db7) — and the NEGATIVE results (`depth_unbounded`, `wkt_depth_unbounded`): the
           "bounded stack" clause is false of the model of the current code.  Memory safety of the models is by construction.
-support : everything about the real C++ is runtime evidence (harness/c11.cpp):
+translator: translate/specs/wkb_guards.py regenerates the bounds check of every primitive read of ByteOrderDataInStream.h, the header part of
+          WKBReader::readGeometry and the count guards / child loops of the WKBReader::read* functions into Generated/WkbGuards.lean on every
+          run; Props/C11Gen.lean proves them equal to the model's pattern-matching reads, `readHeader`, `readColl` (+ spec wkb_words of C09:
+          getUnsigned, minMemSize, the dispatch switch); `prepare` refuses a nesting-depth counter or a vector sized from a claimed count
+support : everything else about the real C++ is runtime evidence (harness/c11.cpp):
             wkb-fuzz, hex-fuzz, wkt-fuzz, geojson-fuzz   ASan+UBSan+LSan build, every input in a forked child under
                 CPU / stack / heap limits; verdict class and decoded tree compared with the models (GeoJSON: crash-only)
             witness families (release build)              the witnesses of the negative theorems, the regression witness
@@ -488,7 +492,11 @@ def run(ctx):
         resource.setrlimit(resource.RLIMIT_STACK, (want if hard == resource.RLIM_INFINITY else min(want, hard), hard))
     except Exception:
         pass
-    proved = ctx.prove(PROPS, extra_targets=(DRV,))
+    # translator tie: the bounds checks / count guards / child loops of ByteOrderDataInStream.h and WKBReader.cpp (spec wkb_guards, bridged in
+    # Props/C11Gen.lean); C11Gen composes with the regenerated getUnsigned / minMemSize / dispatch of C09's spec wkb_words (Props/C09Gen.lean),
+    # so that spec is regenerated from the same tree here too
+    proved = ctx.prove_generated([("wkb_guards", "GeosModel/Generated/WkbGuards.lean", "GeosModel.Props.C11Gen"),
+                                  ("wkb_words", "GeosModel/Generated/WkbWords.lean", "GeosModel.Props.C09Gen")], PROPS, extra_targets=(DRV,))
     quick = ctx.tier == "quick"
     found = 0
     seen = set()
